@@ -991,6 +991,40 @@ func ruleLoaderCycle(c *Ctx) {
 				}
 			}
 		}
+		// key agreement: where one function marks a file as loaded and records it in the result, both name the
+		// file by the same value (C20-m28: `st.loaded[basePath] = true` next to `result.Files[includePath] = ...` - two
+		// strings in scope, the including file marked instead of the included one, so a file reached twice is
+		// recorded twice)
+		for _, f := range ls.members() {
+			var marks, recs []*ssa.MapUpdate
+			for _, b := range f.Blocks {
+				for _, ins := range b.Instrs {
+					mu, ok := ins.(*ssa.MapUpdate)
+					if !ok {
+						continue
+					}
+					if ls.isRecord(mu) {
+						recs = append(recs, mu)
+					} else if ls.L != nil && ls.setOf(mu.Map) == ls.L {
+						marks = append(marks, mu)
+					}
+				}
+			}
+			if len(recs) == 0 {
+				continue
+			}
+			for _, m := range marks {
+				same := false
+				for _, r := range recs {
+					if stripConv(m.Key) == stripConv(r.Key) || sameLoad(stripConv(m.Key), stripConv(r.Key)) {
+						same = true
+					}
+				}
+				c.check(same, "G-ONCE", funcName(f), "the file marked as loaded is the file recorded", m.Pos(),
+					"the mark in the set of loaded files and the entry in the result's Files use the same key",
+					"the key marked in the set of loaded files is not the key under which the file is recorded in the result: the recorded file is never marked, so a file reached along two acyclic include paths (a diamond, a repeated directive, a glob plus an explicit include) is recorded twice - FileOrder lists it twice and every aggregate over the tree counts its entries twice")
+			}
+		}
 		c.census("G-ONCE", "sites recording an included file", nRecSites, 1)
 		c.census("G-ONCE", "marks of the loaded set in the include step", nMarkL, 1)
 	}
